@@ -462,5 +462,6 @@ func checkC39(w *World, r *Run) {
 			r.Check(len(escapes) == 0, ruleEach, "validateObject: hashed part → verifyPartChecksums", pos, "compared or failed on every path", "a part's bytes can be hashed and then skipped without being compared with the part row: a corrupted part of such an object is reported intact")
 		}
 	}
+	checkC39ListingFeedsValidator(w, r)
 	r.NotCovered("digest arithmetic; objects that are not listed (non-current versions, pending uploads); parts shared between objects are read once per object; the interactive confirmation; that listing and validation race with concurrent writers")
 }
